@@ -30,6 +30,16 @@ struct SummaryRanges {
 const GET_SUMMARY_RANGE_DELTA_INDICIES_WARN: &str =
     "No transactions in the summary period";
 
+/// A sale at a loss, whether or not (any of) the loss is currently superficial.
+///
+/// Txs within the superficial loss period of such a sale cannot be summarized.
+/// Even if the loss is not superficial now, replacing the Txs before it with a
+/// summary purchase (dated within 30 days of the sale) would make it so.
+fn is_loss_sale(delta: &TxDelta) -> bool {
+    delta.is_superficial_loss()
+        || delta.capital_gain.map(|g| is_negative(&g)).unwrap_or(false)
+}
+
 fn get_summary_range_delta_indicies(
     latest_date: Date,
     deltas: &Vec<TxDelta>,
@@ -59,7 +69,7 @@ fn get_summary_range_delta_indicies(
         Date::from_calendar_date(3000, time::Month::January, 1).unwrap();
     // for _, delta := range deltas[latestDeltaInSummaryRangeIdx+1:] {
     for delta in &deltas[latest_delta_in_summary_range_idx + 1..] {
-        if delta.is_superficial_loss() {
+        if is_loss_sale(delta) {
             first_superficial_loss_period_day =
                 get_first_day_in_superficial_loss_period(delta.tx.settlement_date);
             tx_in_summary_overlaps_superficial_loss =
@@ -67,10 +77,11 @@ fn get_summary_range_delta_indicies(
             if tx_in_summary_overlaps_superficial_loss {
                 debug!(
                     "get_summary_range_delta_indicies: {} tx in {} settled on {} is in SFL period \
-                    (starting {}) of tx settled on {} (SFL of {})",
+                    (starting {}) of loss tx settled on {} (SFL of {:?})",
                     latest_in_summary_tx.security, latest_in_summary_tx.affiliate.name(),
                     latest_in_summary_tx.settlement_date, first_superficial_loss_period_day,
-                    delta.tx.settlement_date, *delta.sfl.as_ref().unwrap().superficial_loss,
+                    delta.tx.settlement_date,
+                    delta.sfl.as_ref().map(|sfl| *sfl.superficial_loss),
                 );
             }
             break;
@@ -94,7 +105,7 @@ fn get_summary_range_delta_indicies(
                 latest_summarizable_date = Some(delta.tx.settlement_date);
                 break;
             }
-            if delta.is_superficial_loss() {
+            if is_loss_sale(delta) {
                 // We've encountered another superficial loss within the summary
                 // range. This can be affected by previous txs, so we need to now push
                 // up the period where we can't find any txs.
